@@ -18,7 +18,7 @@ from fractions import Fraction as F
 
 import numpy as np
 
-from harness.core import coq_eval_cases, coq_list, q_lit, run_impl
+from harness.core import safe_fraction, coq_eval_cases, coq_list, q_lit, run_impl
 
 HEADER = ("From Coq Require Import QArith Qabs Qminmax List Bool.\nFrom SV Require Import model.Film.\n"
           "Import ListNotations.\nOpen Scope Q_scope.\n")
@@ -30,7 +30,7 @@ def hx(x):
 
 
 def fq(x):
-    return q_lit(F(float(x)))
+    return q_lit(safe_fraction(x))
 
 
 def uv(s):
@@ -75,7 +75,7 @@ def coq_fluid(P):
 
 def run(ctx):
     ctx.rule = ("every shipped thermal-fluid variant and random polynomial fluids (linear/quadratic property polynomials, "
-                "non-default floor / window / cut-off) evaluated on sweeps of temperature (inside, at and outside the window), "
+                "non-default floor / window / cut-off, each also written to XML and loaded back) evaluated on sweeps of temperature (inside, at and outside the window), "
                 "velocity (1e2..1e9 mm/hr, spanning laminar to turbulent) and radius (2..50 mm). one case = one (fluid, T, u, r); "
                 "non-trivial = T outside the window or Re within a decade of the cut-off")
     ctx.trusted += ["independent float evaluation of the Gnielinski expression (log, real powers) supplies gn; its monotonicity in Re is "
@@ -85,6 +85,7 @@ def run(ctx):
     ctx.prove("C18_gnielinski")
     if ctx.tier == "thorough":
         ctx.coqchk("C18")
+        ctx.coqchk("C18_gnielinski")
     rng = ctx.rng
     variants = run_impl("c18_film", {"list": True})["variants"]
     cases = []
@@ -124,6 +125,13 @@ def run(ctx):
         if "error" in r:
             findings.append((c, "%s: evaluation raised %s" % (name, r["error"])))
             continue
+        if "reloaded" in r and r["reloaded"] != r["params"]:
+            diff = [k for k in r["params"] if r["params"][k] != r["reloaded"].get(k)]
+            findings.append((c, "%s: saved to XML and loaded again the fluid has different %s (%s -> %s)"
+                             % (name, ", ".join(diff), [r["params"][k] for k in diff][:2], [r["reloaded"].get(k) for k in diff][:2])))
+        if "reloaded_film" in r and r["reloaded_film"] != r["rows"][0]["film"]:
+            findings.append((c, "%s: the reloaded fluid gives film coefficient %s at the first point, the original %s"
+                             % (name, r["reloaded_film"], r["rows"][0]["film"])))
         P = {k: ([float.fromhex(x) for x in v] if isinstance(v, list) else float.fromhex(v)) for k, v in r["params"].items()}
         fl_term = coq_fluid(P)
         ctx.count("fluid:" + ("shipped" if c["fluid"]["kind"] == "shipped" else "random"))
